@@ -88,11 +88,11 @@ def gen(rng, tier, index):
         b = {"kind": "rigid", "m": m, "theta": [0.05, 0.06, 0.07], "r": [L, 0.0, 0.0], "p": [1.0, 0, 0, 0], "v": [0, 0, 0], "w": [0, 0, 0]}
         x = rng.random()
         if x < 0.6:
-            act = {"type": "pd", "joint": 0, "kp": float(rng.uniform(1, 30)), "kd": float(rng.uniform(0.1, 1)), "target": [float(rng.uniform(-1.0, 1.0)), 0.0], "time": "ramp"}
+            act = {"type": "pd", "joint": 0, "kp": float(rng.uniform(1, 30)), "kd": float(rng.uniform(0.1, 1)), "target": [float(rng.uniform(-0.8, 0.8)), 0.0], "time": "ramp"}
         elif x < 0.8:
-            act = {"type": "pid", "joint": 0, "kp": float(rng.uniform(1, 30)), "ki": 0.0, "kd": float(rng.uniform(0.1, 1)), "target": [float(rng.uniform(-1.0, 1.0)), 0.0], "time": "ramp", "q0": 0.0}
+            act = {"type": "pid", "joint": 0, "kp": float(rng.uniform(1, 30)), "ki": 0.0, "kd": float(rng.uniform(0.1, 1)), "target": [float(rng.uniform(-0.8, 0.8)), 0.0], "time": "ramp", "q0": 0.0}
         else:
-            act = {"type": "motor", "joint": 0, "tau": float(rng.uniform(-0.8, 0.8) * m * 9.81 * L), "time": "ramp"}
+            act = {"type": "motor", "joint": 0, "tau": float(rng.uniform(-0.25, 0.25) * m * 9.81 * L), "time": "ramp"}
         plan["scene"] = {
             "t0": 0.0,
             "bodies": [b],
@@ -105,7 +105,7 @@ def gen(rng, tier, index):
             "contacts": [],
             "gravity": [0.0, 0.0, -9.81 * float(rng.uniform(0.3, 1.0))],
         }
-        plan["n_load_steps"] = int(rng.integers(2, 9))
+        plan["n_load_steps"] = int(rng.integers(3, 9))
     elif kind == "signorini_linear":
         # linear structures (bodies on prismatic guides and axial springs) whose contacts close in the MIDDLE of a load
         # step: Newton's update computed with the old contact state is exact, the contact state changes in the last
@@ -236,14 +236,18 @@ def check_points(system, sol, opts, out, sig, kind, first_is_initial=True, norma
     z = lambda x, n: np.zeros((nt, n)) if x is None else np.asarray(x)
     q, la_g, la_c, la_N = np.asarray(sol.q), z(sol.la_g, system.nla_g), z(sol.la_c, system.nla_c), z(sol.la_N, system.nla_N)
     C = 50.0
+    # tracked joint angles are history dependent: the harness walks the returned points from the start, in order
+    # (warm start of a step first, then the step), after putting the tracking back to its initial state
+    system.reset()
     for i in range(nt):
         t = float(sol.t[i])
-        parts = residual(system, t, q[i], la_g[i], la_c[i], la_N[i])
         if i == 0 and first_is_initial:
+            parts = residual(system, t, q[i], la_g[i], la_c[i], la_N[i])
             prev = parts
         else:
             j = max(i - 1, 0)
             prev = residual(system, t, q[j], la_g[j], la_c[j], la_N[j])  # warm start of this step
+            parts = residual(system, t, q[i], la_g[i], la_c[i], la_N[i])
         vec = np.concatenate([parts[k] for k in parts])
         vec0 = np.concatenate([prev[k] for k in prev])
         n = max(vec.size, 1)
@@ -436,7 +440,8 @@ def execute(plan, out, log):
 
 
 def shrink(plan):
-    if plan["n_load_steps"] > 1 and plan["kind"] != "cantilever_fault":
+    # (tracked joint angles need increments below a quarter turn per load step: the actuator problems keep >= 3 steps)
+    if plan["n_load_steps"] > (3 if plan["kind"] == "rigid_pd" else 1) and plan["kind"] != "cantilever_fault":
         yield dict(plan, n_load_steps=plan["n_load_steps"] - 1)
     if "rod" in plan:
         r = plan["rod"]
